@@ -197,7 +197,7 @@ Proof. exact sk_shallow_spec. Qed.
 Print Assumptions C07_shallow_copy_input_unchanged.
 
 (* ------------------------------------------------------------------------------------------ *)
-(* DAGNode (dagnode.py:573-600) on the DAG heap of Heap/Dag.v *)
+(* DAGNode (dagnode.py:575-602) on the DAG heap of Heap/Dag.v *)
 
 (* DAGNode.copy(): fresh ids for the whole connected part (through parents and children),
    isomorphic links, no link back, every source entry unchanged *)
@@ -369,7 +369,7 @@ Example ex_dag_copy :
   /\ Dag.parents s' 2 = [0; 1].
 Proof. vm_compute. repeat split. Qed.
 
-(* K4-C07 for DAGNode.__copy__ (dagnode.py:586-600): the shallow copy's parents and children are the
+(* K4-C07 for DAGNode.__copy__ (dagnode.py:588-602): the shallow copy's parents and children are the
    input's node objects *)
 Example C07_dag_shallow_copy_refuted :
   let '(s', r) := dshallow_copy ex_dag 2 in
